@@ -178,7 +178,7 @@ impl Prop for C10 {
         "fault_enumeration"
     }
     fn rule(&self) -> String {
-        "per sampled world (3..12 blocks over 2..3 blk files, optional XOR) x the three file-producing callbacks x writer capacity in {1,7,64,4096,4000000}: (1) every height x {file removed, emptied, truncated at 6 positions of the block, index offset past EOF} and EIO on every blk read event; (2) every per-file size limit L from 0 to the largest output size (small outputs) or at every write boundary +-1 (large), and ENOSPC after {0,half,n-1} bytes / EIO at every write event (up to 120 events per run, sampled beyond); (3) process abort before every I/O event and inside every write; (4) failure of every rename; (5) the benign baseline, and the empty range (--start above the tip: exit 0 must still mean one complete row-less final file per output and no *.tmp); (5b) an unreadable block crossed with a size limit in one run (height required whenever the trace shows the block was reached before any write failed); (1b) the input-fault kinds on a single-file copy of the world; (6) on every run, the on-disk size of the source at each rename. Each fault is one simulated run with exactly one failing fault. Non-trivial = the planned fault actually fired (or baseline); distinct by scenario hash.".into()
+        "per sampled world (3..12 blocks over 2..3 blk files, optional XOR) x the three file-producing callbacks x writer capacity in {1,7,64,4096,4000000}: (1) every height x {file removed, emptied, truncated at 6 positions of the block, index offset past EOF} and EIO on every blk read event; (2) every per-file size limit L from 0 to the largest output size (small outputs) or at every write boundary +-1 (large), and ENOSPC after {0,half,n-1} bytes / EIO at every write event (up to 120 events per run, sampled beyond); (3) process abort before every I/O event and inside every write; (3b) SIGTERM/SIGINT/SIGHUP raised by the process on itself before every I/O event (sampled when the trace is long); (4) failure of every rename; (5) the benign baseline, and the empty range (--start above the tip: exit 0 must still mean one complete row-less final file per output and no *.tmp); (5b) an unreadable block crossed with a size limit in one run (height required whenever the trace shows the block was reached before any write failed); (1b) the input-fault kinds on a single-file copy of the world; (6) on every run, the on-disk size of the source at each rename. Each fault is one simulated run with exactly one failing fault. Non-trivial = the planned fault actually fired (or baseline); distinct by scenario hash.".into()
     }
     fn exhaustive_note(&self) -> Option<String> {
         Some("per sampled world: all heights x input-fault kinds, all blk read events, all I/O event indices as crash points, all rename events, all size limits (small outputs) are enumerated; worlds themselves are sampled".into())
@@ -192,7 +192,7 @@ impl Prop for C10 {
         }
     }
     fn required_probes(&self, _tier: Tier) -> Vec<&'static str> {
-        vec!["enospc_on_final_flush", "enospc_midrun", "crash_between_renames", "crash_inside_write", "limit_zero", "stale_same_name_final_present", "start_above_tip", "input_fault_on_full_device", "input_fault_met_before_any_write_failure", "input_fault_in_single_file_directory"]
+        vec!["enospc_on_final_flush", "enospc_midrun", "crash_between_renames", "crash_inside_write", "limit_zero", "stale_same_name_final_present", "start_above_tip", "input_fault_on_full_device", "input_fault_met_before_any_write_failure", "input_fault_in_single_file_directory", "catchable_signal_delivered", "signal_mid_range"]
     }
     fn explore(&self, item: u64, _rng: &mut Rng, _tier: Tier, h: &mut Harness) -> Result<(), String> {
         // every slice regenerates the same world and baseline, then runs its share of the enumeration
@@ -525,6 +525,25 @@ impl Prop for C10 {
                 }
             }
         }
+        // (3b) catchable signals (SIGTERM, SIGINT, SIGHUP) raised before an I/O event: whatever the program
+        // does about them, exit 0 keeps its meaning and no final-named file is ever partial
+        {
+            let last = if hash_ordered { base.trace.iter().find(|x| x.op == "write").map(|x| x.seq).unwrap_or(0) } else { base.trace.last().map(|x| x.seq).unwrap_or(0) };
+            let mut at: Vec<u64> = (0..=last).collect();
+            if at.len() > 45 {
+                let mut pick: Vec<u64> = (0..40).map(|_| at[rng.usize(0, at.len() - 1)]).collect();
+                pick.extend([0, last / 2, last.saturating_sub(1), last]);
+                pick.sort();
+                pick.dedup();
+                at = pick;
+            }
+            for (k, i) in at.into_iter().enumerate() {
+                if mine() {
+                    let signo = [15, 2, 1][k % 3];
+                    h.check(&mut mk("signal", &|r| r.plan.signal = Some((i, signo))))?;
+                }
+            }
+        }
         // (4') failure to create each output file (e.g. dump folder not writable)
         for ev in base.trace.iter().filter(|x| x.op == "create") {
             if !mine() {
@@ -599,6 +618,7 @@ impl Prop for C10 {
         match scn.family.as_str() {
             "benign" => o.exit.ok(),
             "crash" => o.trace.iter().any(|e| e.op == "crash"),
+            "signal" => o.trace.iter().any(|e| e.op == "signal"),
             "input-fault" | "input-fault+limit" => !o.exit.ok(),
             "empty-range" => true,
             _ => o.trace.iter().any(|e| matches!(e.result(), Some((false, n)) if n != 4)),
@@ -738,6 +758,31 @@ impl Prop for C10 {
                             v.push(viol(format!("C10/{}/final-file-after-failure", cb), format!("input fault at height {}: final-named file {} was written", hh, n)));
                         }
                     }
+                }
+            }
+            "signal" => {
+                if o.trace.iter().any(|e| e.op == "signal") {
+                    st.probe("catchable_signal_delivered");
+                    // during the range = after the first block was fetched and before the last rename
+                    let si = o.trace.iter().position(|e| e.op == "signal").unwrap();
+                    if o.trace[..si].iter().any(|e| e.op == "height") && !o.trace[..si].iter().any(|e| e.op == "rename") {
+                        st.probe("signal_mid_range");
+                    }
+                }
+                for n in &final_changed {
+                    let (stem, s, e) = parse_final(n).unwrap();
+                    let complete = expected_file(m, &stem, s, e).map(|x| x.matches(&o.dump[*n])).unwrap_or(false);
+                    let (s0, e0) = (r.start.unwrap_or(0), r.end.map(|e| e.min(m.tip())).unwrap_or(m.tip()));
+                    if !complete || (s, e) != (s0, e0) {
+                        v.push(viol(
+                            format!("C10/{}/partial-final-file-after-signal", cb),
+                            format!("signal {:?}: {} ({} bytes) is not the complete output of the range {}..{}", r.plan.signal, n, o.dump[*n].len(), s0, e0),
+                        ));
+                        break;
+                    }
+                }
+                if o.exit.ok() {
+                    v.extend(self.judge_success(cb, m, r, o, st));
                 }
             }
             "empty-range" => {
